@@ -538,21 +538,12 @@ impl Expression for ExpressionOperator {
             "ExpressionOperator::execute: <{:?}={}> {:?} <{:?}={}>",
             self.left, left_result, self.operator, self.right, right_result
         );
-        let result_data = if Arc::ptr_eq(&left_result.arc, &right_result.arc) {
-            // Same object, we have to clone the content at least for one side to avoid deadlock.
-            let left_data = left_result.lock().unwrap().clone();
-            Self::operation(
-                &left_data,
-                &self.operator,
-                right_result.lock().unwrap().deref(),
-            )
-        } else {
-            Self::operation(
-                &left_result.lock().unwrap(),
-                &self.operator,
-                right_result.lock().unwrap().deref(),
-            )
-        };
+        // The operands may be the same object, or one may be stored inside the other (e.g. "w ?= [v]; w == v").
+        // Work on copies and hold no lock during the operation, otherwise the element-wise compare would block
+        // on a lock this thread already holds.
+        let left_data = left_result.lock().unwrap().clone();
+        let right_data = right_result.lock().unwrap().clone();
+        let result_data = Self::operation(&left_data, &self.operator, &right_data);
         Ok(create_data_arc(result_data))
     }
 
